@@ -27,3 +27,46 @@ void vfail(string task, string who) {
   vlog("\"e\":\"Raise\",\"ctx\":" + jq(task) + ",\"ob\":" + jq(who));
   error("injected fault in " + task + "\n");
 }
+// canonical tagged encoding of any value (JSON text); mapping entries sorted by the encoding of their keys
+string vhex(string s) {
+  string o = "";
+  int i, c;
+  for (i = 0; i < strlen(s); i++) { c = s[i] & 255; o += sprintf("%02x", c); }
+  return o;
+}
+// floats as 6 significant digits in scientific notation (the driver's sprintf knows only %f)
+string vfloat(float v) {
+  int e = 0, n = 0;
+  string sg = "";
+  if (v == 0.0) return "0";
+  if (v < 0.0) { sg = "-"; v = -v; }
+  while (v >= 10.0 && n++ < 400) { v /= 10.0; e++; }
+  while (v < 1.0 && n++ < 400) { v *= 10.0; e--; }
+  return sg + sprintf("%.5f", v) + "e" + e;
+}
+string venc(mixed v) {
+  string s; int i; mixed *k;
+  if (undefinedp(v)) return "{\"t\":\"undef\"}";
+  if (intp(v)) return "{\"t\":\"int\",\"v\":\"" + v + "\"}";
+  if (floatp(v)) return "{\"t\":\"float\",\"v\":\"" + vfloat(v) + "\"}";
+  if (stringp(v)) return "{\"t\":\"str\",\"v\":\"" + vhex(v) + "\"}";
+  if (bufferp(v)) { s = ""; for (i = 0; i < sizeof(v); i++) s += sprintf("%02x", v[i]); return "{\"t\":\"buf\",\"v\":\"" + s + "\"}"; }
+  if (classp(v)) return "{\"t\":\"class\"}";
+  if (arrayp(v)) {
+    s = "";
+    for (i = 0; i < sizeof(v); i++) { if (i) s += ","; s += venc(v[i]); }
+    return "{\"t\":\"arr\",\"v\":[" + s + "]}";
+  }
+  if (mapp(v)) {
+    k = sort_array(map_array(keys(v), (: ({ venc($1), $1 }) :)), (: strcmp($1[0], $2[0]) :));
+    s = "";
+    for (i = 0; i < sizeof(k); i++) { if (i) s += ","; s += "[" + k[i][0] + "," + venc(v[k[i][1]]) + "]"; }
+    return "{\"t\":\"map\",\"v\":[" + s + "]}";
+  }
+  if (objectp(v)) return "{\"t\":\"obj\",\"v\":\"" + file_name(v) + "\"}";
+  if (functionp(v)) return "{\"t\":\"fun\"}";
+  return "{\"t\":\"other\"}";
+}
+// @C17-BEGIN@
+string c17_sver() { return "S1"; }
+// @C17-END@
